@@ -56,7 +56,7 @@ func (f fate) String() string {
 
 const (
 	ttlShort = 20      // ms: expires with the first clock step
-	ttlAlive = 3600000 // ms: alive until the recovery jump
+	ttlAlive = 60000   // ms: alive until a big clock jump
 )
 
 type mutation struct {
@@ -121,6 +121,18 @@ func (d *driver) Committed(fence uint64) []*txn {
 		}
 	}
 	return out
+}
+
+// Lookup returns what the driver knows about the transaction that started at startTS.
+func (d *driver) Lookup(startTS uint64) (ttl uint64, large, async bool) {
+	d.mu.Lock()
+	defer d.mu.Unlock()
+	for _, t := range d.txns {
+		if t.startTS == startTS {
+			return t.ttl, t.large, t.async
+		}
+	}
+	return 0, false, false
 }
 
 // Descr returns a copy of the history description.
